@@ -86,8 +86,10 @@ func sacrificeMain() {
 		rep := parseReport{Ok: perr == nil, Ns: ns, Pulled: p.TokensPulled(), Cursor: p.Cursor()}
 		// goroutines still alive after a short settle
 		after := runtime.NumGoroutine()
-		for i := 0; i < 40 && after != before; i++ {
-			time.Sleep(500 * time.Microsecond)
+		// (only waits while the count still differs; generous so that a loaded machine does not turn a
+		// slow goroutine exit into a reported leak)
+		for i := 0; i < 600 && after != before; i++ {
+			time.Sleep(5 * time.Millisecond)
 			after = runtime.NumGoroutine()
 		}
 		rep.Leak = after - before
@@ -192,7 +194,7 @@ func (s *sacrifice) readLine(d time.Duration) (line string, ok, hung bool) {
 	}
 }
 
-const childTimeout = 8 * time.Second
+const childTimeout = 20 * time.Second
 
 // askChild runs one source in the sacrificial child.
 // phase: 2 = both reports received, 1 = Parse reported then the child died in LexAll,
